@@ -241,6 +241,13 @@ HARNESS = {"c04.deep": deep, "c04.history": history, "c04.resize": resize, "c04.
 
 
 def jobs(tier):
+    js = _jobs(tier)
+    for j in js:
+        j.setdefault("opts", {}).setdefault("path_seconds", 20)
+    return js
+
+
+def _jobs(tier):
     js = []
     shapes = ["A", "AA", "AR", "AAA", "AAR", "ARA", "ARR"]
     if tier == "thorough":
